@@ -1,7 +1,7 @@
 """C20 - the IR evaluator agrees with the compiled code or stops loudly.
 
-Spec: LirAgree in spec/TraceSem.tla on top of spec/RotoSem.tla.  For every generated non-recursive
-script (scalars, records, enums, strings, host calls) the cfg-guarded hook lowers the script ONCE,
+Spec: LirAgree in spec/TraceSem.tla on top of spec/RotoSem.tla.  For every generated script (scalars,
+records, enums, strings, host calls, helper functions incl. tail, non-tail, tree and mutual recursion) the cfg-guarded hook lowers the script ONCE,
 runs the LIR evaluator on that lowered program (panics are caught) and then hands the very same
 lowered program to the JIT.  Each event carries the compiled code's result and host-call log and the
 evaluator's outcome; TLC accepts it iff the evaluator panicked or produced the same value and the
@@ -14,8 +14,8 @@ PID = "C20"
 
 
 def run(tier):
-    fam = [("full", ["ints", "bool", "float", "str", "char", "rec", "enum", "opt", "loops", "calls", "ret", "fstr", "hostopt", "evalsafe", "gconst"], 2, 700, 5000, 2),
-           ("scalar", ["ints", "bool", "float", "char", "calls", "ret", "evalsafe", "gconst"], 2, 600, 5000, 3),
+    fam = [("full", ["ints", "bool", "float", "str", "char", "rec", "enum", "opt", "loops", "calls", "recfn", "ret", "fstr", "hostopt", "evalsafe", "gconst"], 2, 700, 5000, 2),
+           ("scalar", ["ints", "bool", "float", "char", "calls", "recfn", "ret", "evalsafe", "gconst"], 2, 600, 5000, 3),
            ("hostopt", ["bool", "str", "opt", "hostopt", "calls", "evalsafe", "gconst"], 2, 400, 4000, 3)]
     rc = semlib.run_sem_check(
         PID, tier, fam, want_eval=True,
